@@ -5,6 +5,8 @@ from pathlib import Path
 
 V = Path(__file__).resolve().parent.parent
 claims = json.loads((V / "tools" / "claims.json").read_text())
+for q in sorted((V / "tools" / "claims.d").glob("*.json")):
+    claims.update(json.loads(q.read_text()))
 props = [json.loads(l) for l in (V / "properties.jsonl").read_text().splitlines() if l.strip()]
 checks, na = [], []
 for p in props:
